@@ -41,6 +41,50 @@ PROPS["C16"] = {
     "assumptions": [TIME_RANGE],
 }
 
+PROPS["C04"] = {
+    "harnesses": [
+        {"pkg": ".", "dir": "s3db", "entry": "VerifH_C04_commit",
+         "quick": {"params": "maxstmts=1", "workers": 16, "timeout": 900},
+         "thorough": {"params": "maxstmts=2", "workers": 16, "timeout": 3000}},
+    ],
+    "bounds": {"quick": "committed prefix in {empty, 3 keys, 5 keys (depth 2), two unmerged versions}; transaction of 1 statement from {insert, update, delete, insert-growing-the-tree}; crash index symbolic over every mutating request of open+commit",
+               "thorough": "transactions of 1..2 statements"},
+    "outside": "torn single PUTs (objects are atomic), crash of the store, SQLite's journal",
+    "assumptions": [TIME_RANGE, "a crash is modelled as the store refusing the k-th mutating request and everything after it (same bucket state as a process death between two requests)"],
+}
+PROPS["C13"] = {
+    "harnesses": [
+        {"pkg": ".", "dir": "s3db", "entry": "VerifH_C13_readonly",
+         "quick": {"params": "maxversions=2,steps=2", "workers": 16, "timeout": 900},
+         "thorough": {"params": "maxversions=3,steps=3", "workers": 16, "timeout": 3000}},
+    ],
+    "bounds": {"quick": "0..2 unmerged versions; sequences of 2 operations from {insert, update, delete, begin+commit, begin+rollback, vacuum, delete-historic-versions, roots}",
+               "thorough": "0..3 versions, 3 operations"},
+    "outside": "the sqlite-layer wrappers (Sync's read-only short-circuit is covered by C05/C13 sqlite harness when built)",
+    "assumptions": [TIME_RANGE],
+}
+
+PROPS["C09"] = {
+    "harnesses": [
+        {"pkg": ".", "dir": "s3db", "entry": "VerifH_C09_vacuum",
+         "quick": {"params": "steps=3", "workers": 16, "timeout": 1200},
+         "thorough": {"params": "steps=4", "workers": 16, "timeout": 6000}},
+    ],
+    "bounds": {"quick": "histories of 3 single-statement transactions over two keys from {insert k1, insert k2, delete k1, delete k2, update k1, continue-through-new-handle}, each committed as its own version; cutoff symbolic over the whole time range",
+               "thorough": "4 transactions"},
+    "outside": "crash inside vacuum is covered by C04's model only for commit; histories longer than the bound",
+    "assumptions": [TIME_RANGE],
+}
+PROPS["C10"] = {
+    "harnesses": [
+        {"pkg": ".", "dir": "s3db", "entry": "VerifH_C10_rowside", "quick": {"workers": 8, "timeout": 900}},
+        {"pkg": ".", "dir": "s3db", "entry": "VerifH_C10_marker_wins", "quick": {"workers": 8, "timeout": 900}},
+    ],
+    "bounds": "one entry in arbitrary state (deleted flag, modification time, delete offset, cutoff all symbolic over the time range) next to one live row; marker-wins: insert/delete/older-insert times symbolic",
+    "outside": "version-side reclamation beyond what C09's harness asserts (second vacuum changes nothing, retained versions readable)",
+    "assumptions": [TIME_RANGE],
+}
+
 # Properties not (yet) claimed, each with the reason.  Kept current by hand.
 NOT_APPLICABLE = {
     "C%02d" % i: "check not built yet in this session (breadth-first build order, DESIGN §9); no claim is made" for i in range(1, 21)
